@@ -235,10 +235,7 @@ def gen_sortlist_unit(rng):
             "input": jm.dumps({"arr": arr}).encode("utf-8"), "policy": rng.choice(POLICIES)}
 
 
-def gen_arity_unit(rng):
-    """Every function name with 0..5 arguments drawn from a few boundary values: most of these calls are rejected when the
-    expression is parsed (an error, fine); whatever is accepted must evaluate without a panic.  (The table of names is the
-    documented one; the number of arguments is NOT taken from it.)"""
+def _names(rng):
     import json as _json
     global _FUNCTION_NAMES
     try:
@@ -247,13 +244,45 @@ def gen_arity_unit(rng):
         t = _json.load(open(os.path.join(os.path.dirname(os.path.dirname(os.path.abspath(__file__))), "function_table.json")))
         _FUNCTION_NAMES = sorted((x["name"] if isinstance(x, dict) else x) for x in (t if isinstance(t, list) else t.get("functions", t)))
         _FUNCTION_NAMES = [n for n in _FUNCTION_NAMES if n not in ("exec", "trigger", "now")]
-    f = rng.choice(_FUNCTION_NAMES)
+    return _FUNCTION_NAMES
+
+
+def gen_arity_unit(rng):
+    """Every function name with 0..5 arguments drawn from a few boundary values: most of these calls are rejected when the
+    expression is parsed (an error, fine); whatever is accepted must evaluate without a panic.  (The table of names is the
+    documented one; the number of arguments is NOT taken from it.)"""
+    f = rng.choice(_names(rng))
     pool = ["0", "1", "-1", "0.0", "\"\"", "\"a\"", "null", "[]", "[1,2,3]", "{}", ".n", ".arr", ".s", "10", "true", "(size [])", ".nosuch", "3", "2"]
     exprs = []
     for n in rng.sample(range(0, 6), 3):
         exprs.append("(%s%s)" % (f, "".join(" " + rng.choice(pool) for _ in range(n))))
     return {"kind": "expr", "pos": "select", "exprs": exprs[:1], "funcs": ["arity:" + f], "arity": True,
             "input": b'{"n":0,"arr":[1,2,3],"s":"x"} {"n":5,"arr":[],"s":""}', "policy": rng.choice(POLICIES)}
+
+
+ARITY_POOL_QUICK = ["0", "1", "\"a\"", ".arr", "null"]
+ARITY_POOL_THOROUGH = ["0", "1", "-1", "\"a\"", ".arr", "null", "{}", "2.5"]
+
+
+def arity_worker(ctx):
+    """Complete sweep: every documented function name x every argument count 0..N x every tuple of arguments over a small
+    pool of boundary values.  Most tuples are rejected when the expression is parsed or evaluate to nothing; none may panic."""
+    import itertools
+    st = ctx.stats
+    _names(ctx.rng)
+    pool, nmax = ctx.params["arity_pool"], ctx.params["arity_max"]
+    k = 0
+    for f in _FUNCTION_NAMES[ctx.idx::ctx.nworkers]:
+        for n in range(nmax + 1):
+            for tup in itertools.product(pool, repeat=n):
+                if ctx.expired():
+                    st.count("arity_sweep_stopped_by_deadline")
+                    return
+                k += 1
+                unit = {"kind": "expr", "pos": "select", "exprs": ["(%s%s)" % (f, "".join(" " + a for a in tup))], "funcs": ["arity:" + f],
+                        "arity": True, "input": b'{"n":0,"arr":[1,2,3],"s":"x"} {"n":5,"arr":[],"s":""}', "policy": POLICIES[k % len(POLICIES)]}
+                run_unit(ctx, unit)
+                st.count("arity_sweep_cases")
 
 
 def gen_exec_unit(rng):
@@ -390,6 +419,8 @@ def run(env):
     params = {"units_per_worker": 2500 if quick else 120000, "debug_driver": debug_driver}
     stats = core.run_workers(__name__, "worker", PROP, env.tier, env.seed, env.driver, env.hooks_on,
                              40 if quick else 900, params)
+    stats.merge(core.run_workers(__name__, "arity_worker", PROP, env.tier, env.seed, env.driver, env.hooks_on, 60 if quick else 600,
+                                 {"arity_pool": ARITY_POOL_QUICK if quick else ARITY_POOL_THOROUGH, "arity_max": 3 if quick else 4}))
     if quick:
         n1, c1 = run_enum(env, stats, 4)
         n2, c2 = run_enum(env, stats, 5, shard=(env.seed % 8, 8))
